@@ -35,7 +35,7 @@ fi
 rundemo() { # $1 = label
   [ -n "$DEMOPKG" ] || { echo na; return; }
   cp "$OUT/demo_test.go" "$WT/$DEMOPKG/zz_seed_demo_test.go"
-  if (cd "$WT" && go test -vet=off -count=1 -run 'Seed|Demo|Test' "./$DEMOPKG/" >"/tmp/seed_demo_$ID-$K-$1.log" 2>&1); then echo pass; else echo fail; fi
+  if (cd "$WT" && go test -vet=off -count=1 -run 'Demo|Seed|TestC[0-9]' "./$DEMOPKG/" >"/tmp/seed_demo_$ID-$K-$1.log" 2>&1); then echo pass; else echo fail; fi
   rm -f "$WT/$DEMOPKG/zz_seed_demo_test.go"
 }
 if $applies; then
@@ -43,11 +43,13 @@ if $applies; then
   git -C "$WT" apply "$OUT/patch.diff"
   if (cd "$WT" && go build ./... >/tmp/seed_build_$ID-$K.log 2>&1); then builds=true; fi
   if $builds; then
+    # the suite binds a fixed port (webserver) and has a load-sensitive test (rtptime): one suite at a time
+    exec 8>/tmp/seed_suite.lock; flock 8
     if (cd "$WT" && go test -vet=off -count=1 ./... >/tmp/seed_test_$ID-$K.log 2>&1); then tests=true
     else
-      # rtptime.TestTime is flaky under load: retry once
       if (cd "$WT" && go test -vet=off -count=1 ./... >/tmp/seed_test_$ID-$K.log 2>&1); then tests=true; fi
     fi
+    flock -u 8
     demo_patched=$(rundemo patched)
   fi
 fi
@@ -55,6 +57,7 @@ cleanup; trap - EXIT
 
 detected=false; by=""; others=""
 if $applies && $builds; then
+  exec 9>/tmp/seed_repo.lock; flock 9
   if [ -n "$(git -C /repo status --porcelain)" ]; then echo "/repo not clean"; exit 2; fi
   git -C /repo apply "$OUT/patch.diff"
   /verif/bin/galint check $ID -tier quick -noselftest >"/tmp/seed_check_$ID-$K.log" 2>&1
@@ -72,6 +75,7 @@ if $applies && $builds; then
   fi
   git -C /repo checkout -- .
   git -C /repo clean -fdq
+  flock -u 9
 fi
 python3 - "$OUT" "$ID" "$K" "$applies" "$builds" "$tests" "$demo_clean" "$demo_patched" "$detected" "$by" "$others" <<'EOF'
 import json,sys,os
